@@ -301,7 +301,7 @@ pub fn c_member(dir: &Path, world: &ProxyWorld, variant: &str, args: &[&str]) ->
     std::fs::write(dir.join("glue.c"), &glue).unwrap();
     let cc = |extra: &[&str], src: &str, obj: &str| {
         std::process::Command::new("clang")
-            .args(["-c", "-fPIC", "-O1", "-w", "-Werror=implicit-function-declaration", "-Werror=incompatible-pointer-types", "-Werror=int-conversion", "-I"])
+            .args(["-c", "-fPIC", "-O1", "-fstack-protector-all", "-w", "-Werror=implicit-function-declaration", "-Werror=incompatible-pointer-types", "-Werror=int-conversion", "-I"])
             .arg(dir)
             .args(extra)
             .arg(dir.join(src))
